@@ -64,7 +64,7 @@ def _pa(prog: Program, f: Func) -> PathAnalysis:
     return _PA[k]
 
 
-LATER_RULES = ' Later rules: evaluator membership by primitives, not by name; (R15.8) no memo keyed by evaluated values; (R15.9) no evaluated set reaches a call that can see its order.'
+LATER_RULES = ' Later rules: evaluator membership by primitives, not by name; (R15.8) no memo keyed by evaluated values; (R15.9) no evaluated set reaches a call that can see its order. R15.4 (later form): the handler of the signal yields no rewrite at all, effect-free or not.'
 
 
 def check(prog: Program, tier: str) -> Result:
@@ -377,14 +377,10 @@ def _r15_4(prog: Program, res: Result, ev: Evaluator) -> None:
         pa = None
         for n in walk_body(h.body):
             if isinstance(n, (ast.Yield, ast.YieldFrom)):
-                # allowed only when the expression is shown to be effect-free on this path
-                pa = pa or PathAnalysis(prog, f)
-                ok = False
-                worlds = pa.worlds_at(n)
-                if worlds:
-                    ok = all(any(fct[0] == "lit" and not fct[2] and "has_side_effect(" in fct[1] for fct in w.facts) for w in worlds)
-                if not ok:
-                    problems.append(f"line {n.lineno}: a rewrite is yielded although the value is unknown and the expression is not shown effect-free")
+                # `unknown` means: may raise, may be NaN, may be an object with its own __eq__ / __bool__.  No rewrite that
+                # asserts a value or deletes the construct follows from it - not even for an effect-free expression
+                # (`1/0 == 1/0` raises, `nan == nan` is False).
+                problems.append(f"line {n.lineno}: a rewrite is yielded although the evaluator gave no value (`{short(n, 60)}`)")
             if isinstance(n, ast.Call) and isinstance(n.func, ast.Attribute) and n.func.attr in ("add", "append", "update", "extend") \
                     and isinstance(n.func.value, ast.Name) and any(k in n.func.value.id.lower() for k in ("remov", "delet", "redundant", "replac")):
                 problems.append(f"line {n.lineno}: adds to {n.func.value.id} on unknown")
@@ -548,8 +544,9 @@ VARIANTS = [
     Variant("keywords-dropped-again", "FIRE", "core",
             "    if isinstance(node, ast.Call) and not node.keywords:  # e.g. int(\"10\", base=2) is not int(\"10\")",
             "    if isinstance(node, ast.Call):", "R15.6"),
-    Variant("identity-fold-without-effect-test", "FIRE", "symbolic_math",
-            "                and not core.has_side_effect(node.left)  # f() == f() must still call f twice\n", "", "R15.4"),
+    Variant("same-text-on-both-sides-folded-to-true", "FIRE", "symbolic_math",
+            "            right = core.literal_value(comparator)\n        except ValueError:\n            continue\n",
+            "            right = core.literal_value(comparator)\n        except ValueError:\n            if isinstance(operator, ast.Eq) and core.unparse(node.left) == core.unparse(comparator) and not core.has_side_effect(node.left):\n                yield node, ast.Constant(value=True, kind=None)\n            continue\n", "R15.4"),
     Variant("whitelist-as-union", "SILENT", "core",
             "        if isinstance(node.func, ast.Name) and node.func.id in constants.PURE_BUILTIN_FUNCTIONS:",
             "        if isinstance(node.func, ast.Name) and node.func.id in (constants.PURE_BUILTIN_FUNCTIONS | frozenset({\"abs\"})):"),
